@@ -62,6 +62,11 @@ def pair_types(ctx):
     P("W(k2,OLD)||read(k)-shared-content", prep_old, [W(ctx, "k2", OLD, 10), {"op": "read", "cache": "<C>", "key": "k"}], ["k", "k2"], [sOLD])
     P("write_hash(OLD)||read_hash(OLD)-present", prep_old, [{"op": "write_hash", "cache": "<C>", "data": ctx.data(OLD)},
                                                             {"op": "read_hash", "cache": "<C>", "sri": sOLD}], ["k"], [sOLD])
+    # a writer whose commit has to be refused (wrong declared size), racing a good writer of the same, not yet stored bytes
+    bad = W(ctx, "k", A, 10)
+    bad["opts"] = dict(bad["opts"], size=len(A) + 1)
+    P("Wrefused(k,A)||W(k2,A)", prep_warm + [{"op": "remove", "cache": "<C>", "key": "k2"}],
+      [bad, W(ctx, "k2", A, 11)], ["k", "k2"], [sA])
     long_hist = [W(ctx, "k", b"gen-%d" % g, 100 + g) for g in range(24)] + prep_old
     P("W(k,A)||metadata(k)-after-25-records", long_hist, [W(ctx, "k", A, 10), {"op": "metadata", "cache": "<C>", "key": "k"}], ["k"], [sA, sOLD])
     P("W(k,A)||W(k,B)-after-25-records", long_hist, [W(ctx, "k", A, 10), W(ctx, "k", B, 11)], ["k"], [sA, ref.sri("sha256", B)])
@@ -584,7 +589,7 @@ def run(ctx):
     nrand_cold = 40 if ctx.quick else 600
     nrand_async = 20 if ctx.quick else 250
     rand_pts = [p for p in pts if p["name"] in ("W(k,A)||W(k,B)", "Wbig(k,A)||Wbig(k,B)", "Wbig(k,A)||remove(k)", "W(k1,A)||W(k2,A)", "W(k,A)||read(k)", "W(k,A)||list",
-                                                "W(k,A)||remove_hash(A)", "W(k,A)||W(k,B)||W(k,C)", "remove_hash||read(k)",
+                                                "W(k,A)||remove_hash(A)", "W(k,A)||W(k,B)||W(k,C)", "remove_hash||read(k)", "Wrefused(k,A)||W(k2,A)",
                                                 "W(k,A)||remove(k)||metadata(k)")]
     ri = {}
     for pi, pt in enumerate(rand_pts):
